@@ -183,6 +183,25 @@ async fn ok_headers(
     ))
 }
 
+/// A proxy-style handler that hands back a response which already carries an
+/// x-request-id (copied from some upstream): the framework's id must replace
+/// it, not join it.
+#[endpoint { method = GET, path = "/ownid" }]
+async fn ok_own_id(
+    rqctx: RequestContext<SimCtx>,
+) -> Result<http::Response<dropshot::Body>, HttpError> {
+    let h = parse_sim(rqctx.request.headers());
+    let g = HGuard::enter(&rqctx.context().world, h.nonce, 35);
+    note_id(&rqctx, h.nonce);
+    g.finish();
+    Ok(http::Response::builder()
+        .status(200)
+        .header("x-request-id", format!("upstream-{}", h.nonce))
+        .header("content-type", "application/json")
+        .body(dropshot::Body::from("{\"refused\":false}".to_string()))
+        .unwrap())
+}
+
 macro_rules! multi {
     ($name:ident, $m:ident) => {
         #[endpoint { method = $m, path = "/multi" }]
@@ -204,6 +223,7 @@ pub fn register(api: &mut ApiDescription<SimCtx>) {
     api.register(err_custom).unwrap();
     api.register(ok_plain).unwrap();
     api.register(ok_headers).unwrap();
+    api.register(ok_own_id).unwrap();
     api.register(multi_get).unwrap();
     api.register(multi_put).unwrap();
     api.register(multi_delete).unwrap();
